@@ -98,7 +98,12 @@ def run_property(mod, pid, tier, seed, replay=None):
             mism = mod.compare(c, ri, rm)
         else:
             mism = core.compare(c, ri, rm, scale=scale, none_kinds=none_kinds)
-        preds = mod.predicates(c, ri, rm) if hasattr(mod, "predicates") else []
+        if ri[0] in ("HANG", "CRASH"):
+            # non-termination / an abort is a concrete failing input of any property about this operation
+            preds = ["the implementation %s on this input: %s" % (
+                "did not terminate" if ri[0] == "HANG" else "aborted", ri[1])]
+        else:
+            preds = mod.predicates(c, ri, rm) if hasattr(mod, "predicates") else []
         if len(rep.samples) < 6 and (nshown % 7 == 0 or replay):
             rep.samples.append({"case": c.describe(),
                                 "implementation": [repr(x) for x in ri[1]] if ri[0] == "OK" else list(map(str, ri)),
